@@ -18,11 +18,15 @@
    feeds) returns exactly that rule, for every rule within the grammar's ranges (offsets up to 24 h, rule times up to 24 h,
    or 167 h in a version-3 file); C18_file composes it with the layout theorem: the reader applied to the whole encoded
    file returns the transitions, types and rule that were encoded.
+   Grammar at large (TzGrammar.v): C18_footer_grammar - the same for EVERY spelling the footer grammar allows for a rule:
+   designations alphabetic or quoted <...>, offsets and times with an optional + or -, hours padded to any width, minutes
+   and seconds omitted when zero, the DST offset omitted when it is one hour ahead of standard time, "/time" omitted when
+   it is 02:00:00 (the way real zone files are written: C18_grammar_nonvacuous spells CET-1CEST,M3.5.0,M10.5.0/3 and
+   <+0330>-3:30<+0430>,J79/24,J263/24); C18_file_grammar composes it with the layout theorem.
    NOT PROVED here (checked by the differential run against TzSpec on synthesized files and against CPython's zoneinfo on
-   real files): the abbreviated spellings of the footer grammar (omitted minutes/seconds, omitted DST offset and /time,
-   quoted <...> designations, a leading +), version-1 files (32-bit block), non-empty leap-second / indicator sections.
+   real files): version-1 files (32-bit block), non-empty leap-second / indicator sections.
    The lookup and decode theorems keep the name *_partial for that reason. *)
-From Astro Require Import Base Text CalSpec DateModel TimeModel ApiModel InstantSpec TzModel TzSpec DateProofs TzProofs TzCodec TzFooter.
+From Astro Require Import Base Text CalSpec DateModel TimeModel ApiModel InstantSpec TzModel TzSpec DateProofs TzProofs TzCodec TzFooter TzGrammar.
 
 Theorem C18_lookup_partial : forall tz t, tz_wf tz -> sorted_trans (tz_trans tz) -> ts_in_range t ->
   MIN_Y + 1 <= utc_year year_of t <= MAX_Y - 1 ->
@@ -48,6 +52,30 @@ Theorem C18_file : forall v trans types chars r, v <> V1 ->
   existsb (fun tr => Z.of_nat (length types) <=? snd tr) trans = false ->
   from_tzif (enc_file v trans types chars (footer_of r)) = TzOk (mkTz trans types (Some r)).
 Proof. exact from_tzif_file. Qed.
+Theorem C18_footer_grammar : forall (ext : bool) sp r, footer_ok ext r -> spelling_ok sp r ->
+  from_tz_string ([10] ++ tz_print sp r ++ [10]) ext = TzOk (Some r).
+Proof. exact from_tz_string_grammar. Qed.
+Theorem C18_file_grammar : forall v trans types chars sp r, v <> V1 ->
+  Forall (fun tr => in_i64 (fst tr)) trans -> Forall in_i32 types ->
+  u32ok (Z.of_nat (length trans)) -> u32ok (Z.of_nat (length types)) -> u32ok (Z.of_nat (length chars)) ->
+  footer_ok (match v with V3 => true | _ => false end) r -> spelling_ok sp r ->
+  existsb (fun tr => Z.of_nat (length types) <=? snd tr) trans = false ->
+  from_tzif (enc_file v trans types chars ([10] ++ tz_print sp r ++ [10])) = TzOk (mkTz trans types (Some r)).
+Proof. exact from_tzif_file_grammar. Qed.
+Example C18_grammar_nonvacuous :
+  let r := RAlt (mkAlt 3600 (MonthWeekDay 3 5 0) 7200 7200 (MonthWeekDay 10 5 0) 10800) in
+  let sp := mkSp (DAlpha [67;69;84]) (mkHms SgMinus 1 0) (DAlpha [67;69;83;84]) None None (Some (mkHms SgNone 1 0)) in
+  and (footer_ok false r) (and (spelling_ok sp r)
+  (tz_print sp r = [67;69;84;45;49;67;69;83;84;44;77;51;46;53;46;48;44;77;49;48;46;53;46;48;47;51])).
+Proof. exact grammar_europe. Qed.
+Example C18_grammar_nonvacuous_quoted :
+  let r := RAlt (mkAlt 12600 (JulianNoLeap 79) 86400 16200 (JulianNoLeap 263) 86400) in
+  let q := fun l => DQuoted l in
+  let sp := mkSp (q [43;48;51;51;48]) (mkHms SgMinus 2 0) (q [43;48;52;51;48]) None (Some (mkHms SgNone 1 0)) (Some (mkHms SgNone 1 0)) in
+  and (footer_ok false r) (and (spelling_ok sp r)
+  (tz_print sp r = [60;43;48;51;51;48;62;45;51;58;51;48;60;43;48;52;51;48;62;44;74;55;57;47;50;52;44;74;50;54;51;47;50;52])).
+Proof. exact grammar_tehran. Qed.
+
 Example C18_footer_nonvacuous :
   let r := RAlt (mkAlt 3600 (MonthWeekDay 3 5 0) 7200 7200 (MonthWeekDay 10 5 0) 10800) in
   and (footer_ok false r)
@@ -96,6 +124,8 @@ Print Assumptions C18_lookup_partial.
 Print Assumptions C18_decode_partial.
 Print Assumptions C18_footer.
 Print Assumptions C18_file.
+Print Assumptions C18_footer_grammar.
+Print Assumptions C18_file_grammar.
 Print Assumptions C18_scan.
 Print Assumptions C18_rule_date_J.
 Print Assumptions C18_rule_date_N.
